@@ -31,6 +31,8 @@ def sym_event(sym, rng=None, k=0):
     if sym == "E0":  # falsy members: empty error object, code 0, empty message
         return [{"k": "err", "id": "$ID"}, {"k": "err", "id": "$ID", "code": 0, "msg": ""},
                 {"k": "err", "id": "$ID", "code": 0}][k % 3]
+    if sym == "Ez":  # an error the server could not attribute to a request: id null (parse error, invalid request, ...)
+        return {"k": "err", "id": None, "code": [-32700, -32600, -32603, -32000][k % 4], "msg": ["Parse error", "Invalid Request", "boom", ""][k % 4]}
     if sym == "Q":
         return {"k": "req", "id": "$ID", "method": ["sampling/createMessage", "roots/list", "ping", "notifications/progress"][k % 4]}
     if sym == "O":
@@ -147,6 +149,8 @@ def seeded(rng, alphabet, weights=None, max_len=12, ids=None, progress_p=0.5, ca
         "ev": [[a, sym_event(s, k=rng.randint(0, 9))] for a, s in zip(times, word)],
     }
     r = rng.random()
+    # what kind of object the caller passes as its token (the code may only rely on its public surface)
+    case["tokenKind"] = rng.choice(["plain", "plain", "linked", "duck"])
     if r < cancel_p:
         case["cancelAt"] = max(1, rand_time(rng, D))
     elif r < cancel_p + 0.04:
@@ -155,9 +159,15 @@ def seeded(rng, alphabet, weights=None, max_len=12, ids=None, progress_p=0.5, ca
         case["hasToken"] = True
     if rng.random() < 0.25:
         case["debug"] = True  # the host application runs with logging at DEBUG
+    if rng.random() < 0.2:
+        case["idSubclass"] = True  # the caller's id is an instance of a str subclass
     if rng.random() < 0.15:
         # the peer closes its end / stops reading after the request has been written
-        case["writer"] = rng.choice(["closed", "blocked"])
+        case["writer"] = rng.choice(["closed", "blocked", "stalled", "stalled"])
+        if case["writer"] == "stalled":
+            # the peer reads again at that tick (never exactly at the deadline: a real tie)
+            su = rng.choice([rng.randint(1, D + 200), P, P + 1, 2 * P - 1, max(1, D - 1), D + 1])
+            case["stallUntil"] = su + 1 if su == D else su
     if case["progress"] and rng.random() < 0.3:
         case["cbRaises"] = sorted(set(rng.randint(0, 4) for _ in range(rng.randint(1, 3))))
         case["cbExc"] = rng.randint(0, 10)  # which exception class the failing callback raises
@@ -171,7 +181,11 @@ def shrink_candidates(case):
         c = dict(case)
         c["ev"] = ev[:i] + ev[i + 1:]
         yield c
-    for key in ("cbRaises", "hasToken", "params", "writer", "debug"):
+    if case.get("tokenKind", "plain") != "plain":
+        yield dict(case, tokenKind="plain")
+    if case.get("writer") == "stalled":
+        yield dict(case, writer="blocked")
+    for key in ("cbRaises", "hasToken", "params", "writer", "debug", "eos", "idSubclass", "cbAction"):
         if case.get(key):
             c = dict(case)
             c.pop(key)
